@@ -759,6 +759,9 @@ class MSSQLQueryBuilder(FetchNextAndOffsetRowsQueryBuilder):
             top = int(value)
         except (ValueError, TypeError):
             raise QueryException("TOP value must be an integer")
+        if not isinstance(value, str) and top != value:
+            # int() silently truncates 5.7 to 5 (the string '5.7' is rejected above)
+            raise QueryException("TOP value must be an integer")
 
         if percent and not (0 <= top <= 100):
             raise QueryException("TOP value must be between 0 and 100 when `percent`" " is specified")
